@@ -215,4 +215,16 @@ theorem save_records (hashOf : Tree → Bytes) (m : MT) (h : (m.saveVersion hash
       · trivial
       · intro _; trivial
 
+/-! ### non-vacuity of the hypotheses of the versioning theorems -/
+
+/-- a store with two saved versions, session based on version 2. -/
+def exStore : MT :=
+  { root := .empty, lastSaved := .empty, size := 0, version := 2,
+    saved := [(1, .empty), (2, .empty)] }
+
+example : exStore.prune 1 = .ok { exStore with saved := [(2, .empty)] } := rfl
+example : ∃ m' l, exStore.loadVersion 1 = .ok (m', l) := ⟨_, _, rfl⟩
+example : (exStore.saveVersion (fun _ => [])).1 = none := rfl
+example : exStore.lookup 2 = some .empty := rfl
+
 end GnoVerif.C23
